@@ -41,9 +41,10 @@ structure World where
   touch : List Touch
   caches : List CacheFile
   now : Nat
+  extras : List Extra := []
   deriving Repr
 
-def World.init (nst : Nat) (dirs : List DirEnt) : World := ⟨nst, Spec.empty, dirs, [], [], 1⟩
+def World.init (nst : Nat) (dirs : List DirEnt) : World := ⟨nst, Spec.empty, dirs, [], [], 1, []⟩
 
 /-! ## pieces of a `Spec` -/
 
@@ -135,6 +136,7 @@ def effKey : Eff → Option (Nat × Name)
   | .assign s _ n _ _ => some (s, n)
   | .unassign s _ n _ => some (s, n)
   | .rmTree _ => none
+  | .copyExtra _ => none
 
 /-- does the `Database` call rewrite or remove a file (an unassign of a tag that is not there does not) -/
 def effWrites (db : Spec) : Eff → Bool
@@ -143,6 +145,7 @@ def effWrites (db : Spec) : Eff → Bool
   | .assign s _ n f v => db.hasDecl s n v f
   | .unassign s t n f => db.hasTag s t n f
   | .rmTree _ => false
+  | .copyExtra _ => false
 
 def setTouch (ts : List Touch) (s : Nat) (n : Name) (t : Option Nat) : List Touch :=
   let rest := ts.filter fun x => !(x.stack == s && x.name == n)
@@ -166,6 +169,8 @@ def applyDbW (w : World) (e : Eff) : World :=
 def applySaveW (u : User) (w : World) (m m' : Spec) (e : Eff) : World :=
   match e with
   | .rmTree d => { w with dirs := w.dirs.filter fun x => x.dir != d }
+  | .copyExtra x => { w with extras := x :: w.extras.filter fun y =>
+      !(y.stack == x.stack && y.flav == x.flav && y.name == x.name && y.ver == x.ver && y.path == x.path) }
   | _ =>
     match e.saves m with
     | none => w
@@ -216,11 +221,11 @@ def stepG (fixed : Bool) (w : World) : WCmd → StepResult
   | .rmCache u s f => ⟨.ok, false, [], Spec.empty, [], [], { w with caches := rmCache w.caches u s f }⟩
   | .run u c crash =>
     let (m, fl, w1) := load w u c.self
-    let (out, p) := run w.nst c ⟨w1.db, m, w1.dirs, []⟩
+    let (out, p) := run w.nst c ⟨w1.db, m, w1.dirs, [], w1.extras⟩
     let cut : List Eff × Option Eff := match crash with
       | none => (p.tr, none)
       | some k => cutAfterDb p.tr k
-    ⟨out, cut.2.isSome, fl, m, cut.1 ++ cut.2.toList, wouldDo w.nst c ⟨w1.db, m, w1.dirs, []⟩,
+    ⟨out, cut.2.isSome, fl, m, cut.1 ++ cut.2.toList, wouldDo w.nst c ⟨w1.db, m, w1.dirs, [], w1.extras⟩,
      replay fixed u (w1, m) cut.1 cut.2⟩
 
 def step (w : World) (c : WCmd) : World := (stepG true w c).w
